@@ -509,13 +509,22 @@ def step (s : St) : Ev → Option St
 
 /-! ## candidates -/
 
-def internalCands (s : St) : List Ev :=
+/-- `close(doneCh)` and the end of a drained call touch only their own call entry, are enabled by
+nothing but time and are disabled by nothing: taking them first loses no observable behaviour. -/
+def urgentCands (s : St) : List Ev :=
+  ((List.range s.calls.length).flatMap fun i => [Ev.done i, Ev.drained i]).filter fun e => (step s e).isSome
+
+def allInternal (s : St) : List Ev :=
   ((List.range s.th.length).flatMap fun a => [.addRefCS a, .relSwap a, .relCS a, .setCtxCS a]) ++
   ((List.range s.calls.length).flatMap fun i => [.giveUp i, .drained i, .store i, .done i]) ++
   ((List.range s.relRuns.length).map fun j => .relRun j) ++
   ((headBatch s).filterMap fun it => match it with
     | .refcb r false res v e => some (.cb (.refcb r false res v e))
     | _ => none)
+
+def internalCands (s : St) : List Ev :=
+  let u := urgentCands s
+  if u.isEmpty then allInternal s else u
 
 def evsOf (s : St) : Obs → List Ev
   | .cfg k c t => [.cfg k c t]
